@@ -151,8 +151,8 @@ impl Check for C14 {
     }
     fn runs(&self, tier: Tier) -> u64 {
         match tier {
-            Tier::Quick => 20_000,
-            Tier::Thorough => 1_000_000,
+            Tier::Quick => 700_000,
+            Tier::Thorough => 21_000_000,
         }
     }
 
